@@ -39,6 +39,7 @@ type Case struct {
 	Dir    string    `json:"dir"`
 	Codec  string    `json:"codec"`
 	Data   string    `json:"data_hex"`
+	Cuts   []int     `json:"write_cuts,omitempty"` // Dir "enc": the input is handed to the encoder in len(Cuts)+1 writes
 
 	Encoded string `json:"encoded_hex,omitempty"`
 	Got     string `json:"got_hex,omitempty"`
@@ -305,8 +306,8 @@ func filterClass(s c06.FSpec) string {
 // libEncode encodes with the library; ok is false when the parameters are
 // rejected (pruned) - an encoding error on accepted parameters is C06's
 // business and is reported there.
-func libEncode(s c06.FSpec, data []byte) ([]byte, bool) {
-	enc, _, _, rejected, err := c06.Encode(v15, s.Filter(), data, c06.Chunking{})
+func libEncode(s c06.FSpec, data []byte, cuts []int) ([]byte, bool) {
+	enc, _, _, rejected, err := c06.Encode(v15, s.Filter(), data, c06.Chunking{Cuts: cuts})
 	if rejected || err != nil {
 		return nil, false
 	}
@@ -315,9 +316,14 @@ func libEncode(s c06.FSpec, data []byte) ([]byte, bool) {
 
 // encSide: library encoder -> independent decoder codec.
 func (rn *runner) encSide(space string, s c06.FSpec, codec string, data []byte) {
+	rn.encSideCut(space, s, codec, data, nil)
+}
+
+// encSideCut is encSide with the input handed to the encoder in several writes.
+func (rn *runner) encSideCut(space string, s c06.FSpec, codec string, data []byte, cuts []int) {
 	r := rn.r
 	r.Eval(1)
-	enc, ok := libEncode(s, data)
+	enc, ok := libEncode(s, data, cuts)
 	if !ok {
 		r.Outcome("pruned:library-rejects")
 		return
@@ -328,7 +334,10 @@ func (rn *runner) encSide(space string, s c06.FSpec, codec string, data []byte) 
 		return
 	}
 	fp := fmt.Sprintf("interop:%s:enc:%s:%s", filterClass(s), codec, symptom(data, got, err))
-	rn.fail(fp, Case{Space: space, Filter: s, Dir: "enc", Codec: codec}, data, enc, got,
+	if len(cuts) > 0 {
+		fp += ":chunked-writes"
+	}
+	rn.fail(fp, Case{Space: space, Filter: s, Dir: "enc", Codec: codec, Cuts: cuts}, data, enc, got,
 		fmt.Sprintf("%s encodes %d bytes to %d bytes; %s decodes them to %d bytes (%v), first difference at %d", s, len(data), len(enc), codec, len(got), err, firstDiff(got, data)))
 }
 
@@ -362,7 +371,7 @@ func (rn *runner) libDecodes(space string, s c06.FSpec, codec string, data, enc 
 func (rn *runner) predEncSide(space string, s c06.FSpec, data []byte) {
 	r := rn.r
 	r.Eval(1)
-	enc, ok := libEncode(s, data)
+	enc, ok := libEncode(s, data, nil)
 	if !ok {
 		r.Outcome("pruned:library-rejects")
 		return
@@ -504,6 +513,9 @@ func Run(tier string) int {
 	}
 	if only("ccitt") {
 		rn.ccittSpace()
+	}
+	if only("chunks") {
+		rn.chunkSpace()
 	}
 	return r.Finish()
 }
@@ -756,6 +768,61 @@ func (rn *runner) ccittSpace() {
 	})
 }
 
+// chunkSpace: the library encoders fed in several writes (every way of cutting
+// a short input into at most three writes, through a transfer buffer that is
+// overwritten after each call), judged by the independent decoders.
+func (rn *runner) chunkSpace() {
+	r := rn.r
+	maxBytes := ev.Pick(r, 6, 8)
+	type job struct {
+		s     c06.FSpec
+		codec string
+		data  []byte
+	}
+	var jobs []job
+	for n := 1; n <= maxBytes; n++ {
+		for _, p := range []string{"ramp", "paethTies"} {
+			d := c06.Pattern(p, 1, n)
+			jobs = append(jobs,
+				job{c06.FSpec{Kind: "A85"}, "encoding/ascii85", d},
+				job{c06.FSpec{Kind: "AHx"}, "ref/asciihex", d},
+				job{c06.FSpec{Kind: "RL"}, "ref/runlength", d},
+				job{c06.FSpec{Kind: "RL"}, "ref/runlength", bytes.Repeat([]byte{7}, n)},
+				job{c06.FSpec{Kind: "Flate"}, "compress/zlib", d},
+				job{c06.FSpec{Kind: "LZW", Early: true}, "ref/lzw", d},
+				job{c06.FSpec{Kind: "LZW"}, "ref/lzw", d},
+			)
+		}
+	}
+	nb := 0
+	for _, sp := range c06.CCITTSpaces(false) {
+		for _, b := range sp.Bitmaps() {
+			if b.Rows < 2 || len(b.Data) > maxBytes || b.Cols < 9 {
+				continue // one byte per row: every cut is row-aligned
+			}
+			nb++
+			for _, g := range []c06.FSpec{{Kind: "CCITT", K: 0, EOL: true}, {Kind: "CCITT", K: -1}} {
+				g.Cols = b.Cols
+				jobs = append(jobs, job{g, "x/image/ccitt", b.Data})
+			}
+		}
+	}
+	r.Dim("chunk_space", map[string]any{
+		"cuts":   "every way to cut the input into <= 3 writes (empty writes included), each write through a transfer buffer that is overwritten when the call returns",
+		"inputs": fmt.Sprintf("2 patterns x lengths 1..%d for ASCII85, ASCIIHex, RunLength (+ one run), Flate, LZW (both EarlyChange values); %d bitmaps of >= 2 rows, >= 9 columns and <= %d bytes for CCITTFax Group 3 1-D and Group 4", maxBytes, nb, maxBytes),
+	})
+	r.Par(len(jobs), func(i int) {
+		if r.Expired() {
+			return
+		}
+		j := jobs[i]
+		for _, cut := range c06.AllCuts(len(j.data))[1:] {
+			rn.encSideCut("chunks", j.s, j.codec, j.data, cut)
+		}
+		rn.distinct("k", j.s.Kind, j.s.K, j.s.Early, j.s.Cols, j.data)
+	})
+}
+
 // ---------------------------------------------------------------------------
 
 func (rn *runner) replay(c *Case) error {
@@ -786,7 +853,7 @@ func (rn *runner) replay(c *Case) error {
 		}
 		rn.predDecSide(c.Space, c.Filter, alg, data)
 	case c.Dir == "enc":
-		rn.encSide(c.Space, c.Filter, c.Codec, data)
+		rn.encSideCut(c.Space, c.Filter, c.Codec, data, c.Cuts)
 	default:
 		rn.decSide(c.Space, c.Filter, c.Codec, data)
 	}
